@@ -233,7 +233,8 @@ def check_config(ci):
             sports = [1, 65535]
             protos = [e['proto']] if e['proto'] else [6, 17]
             for src, dst, sp, dp, pr in itertools.product(corners_src, corners_dst, sports[:1 if ck.quick else 2], dports, protos):
-                pres = ['none', 'established', 'established+half-open', 'given-up', 'established:childless:send-failed']
+                pres = ['none', 'established', 'established+half-open', 'given-up', 'established:childless:send-failed',
+                        'established:after-own-child-rekey', 'established:after-peers-child-rekey']
                 if any(x is not c and x['peer'] == c['peer'] for x in expect):
                     pres.append('sibling-established')      # an IKE_SA exists for ANOTHER connection with this peer address
                 for pre in pres:
@@ -377,6 +378,21 @@ def acquire_case(confs, addrs, expect, ci, ei, pol_index, src, dst, sport, dport
         n_before = len(a.controller.ike_sas)
         if n_before != 1:
             probs.append(('ike-sa-lost-after-send-failure', 'after the request of an ACQUIRE could not be sent A holds %d IKE_SAs' % n_before))
+    if pre in ('established:after-own-child-rekey', 'established:after-peers-child-rekey'):
+        # the CHILD_SA of the IKE_SA has been rekeyed (by this end / by the peer) and the old one deleted; the ACQUIRE that
+        # follows is a plain CREATE_CHILD_SA for the entry it names
+        w.step(('acquire', 'A', ci, 0))
+        w.deliver_all()
+        who = 'A' if 'own' in pre else next(n_ for n_, e_ in w.endpoints.items() if n_ != 'A' and str(e_.addrs[0]) == str(c['peer']))
+        sas = [s for s in w.endpoints[who].controller.ike_sas if s.state == State.ESTABLISHED and s.child_sas]
+        if not sas:
+            return [('precondition', 'could not establish the first IKE_SA with the peer')]
+        w.step(('expire', who, bytes(sas[0].child_sas[0].inbound_spi), False))
+        w.deliver_all()
+        if len(a.kernel.sad) != 2 or not a.alive:
+            return [('precondition', 'the CHILD_SA rekey did not leave one pair of SAs (%d)' % len(a.kernel.sad))]
+        pre = 'established-already'
+        n_before = len(a.controller.ike_sas)
     if pre == 'given-up':
         # an IKE_SA with that peer existed and has been given up in the pass just before the one that reads the ACQUIRE
         # (the peer was unreachable): no IKE_SA exists any more, so a new one is negotiated
